@@ -24,6 +24,7 @@ type schemaCase struct {
 	Hex       bool        `json:"hex"`
 	Optional  bool        `json:"optional"`
 	RootTypes bool        `json:"roottypes"`
+	RootName  string      `json:"rootname"`
 	Types     [][2]string `json:"types"`
 	Enums     [][2]string `json:"enums"`
 	Ops       [][]string  `json:"ops"`
@@ -111,7 +112,11 @@ func init() {
 				}
 				return js.New(name, text)
 			}
-			root := mk("root", dec(c.Schema))
+			rootName := "root"
+			if c.RootName != "" {
+				rootName = c.RootName
+			}
+			root := mk(rootName, dec(c.Schema))
 			enums := map[string]*enum.Enum{}
 			for _, e := range c.Enums {
 				enums[e[0]] = enum.New(e[0], dec(e[1]))
